@@ -55,6 +55,9 @@ type run struct {
 	pvSorts  map[string]*smt.Sort
 	autoUnrolled map[string]bool
 	Trivial  int
+	factTag  map[*smt.Term]string // fact -> family instance it was assumed from
+	curTag   string
+	goalTag  string
 }
 
 // autoUnroll is the unroll bound used for loops that carry no loop contract.
@@ -120,7 +123,37 @@ func (r *run) assume(guard, fact *smt.Term) {
 	if fact.IsTrue() {
 		return
 	}
-	r.facts = append(r.facts, r.C().Implies(guard, fact))
+	f := r.C().Implies(guard, fact)
+	r.facts = append(r.facts, f)
+	if r.curTag != "" {
+		if r.factTag == nil {
+			r.factTag = map[*smt.Term]string{}
+		}
+		r.factTag[f] = r.curTag
+	}
+}
+
+// factsFor returns the facts an obligation may use: all facts so far, except that facts assumed from
+// instance j of a contract family are dropped when the goal belongs to another instance of the same
+// family (dropping assumptions is always sound; it keeps the solver away from 59 irrelevant ISA cases).
+func (r *run) factsFor() []*smt.Term {
+	all := r.facts[:len(r.facts):len(r.facts)]
+	if r.goalTag == "" || len(r.factTag) == 0 {
+		return all
+	}
+	var out []*smt.Term
+	dropped := false
+	for _, f := range all {
+		if t, ok := r.factTag[f]; ok && t != r.goalTag {
+			dropped = true
+			continue
+		}
+		out = append(out, f)
+	}
+	if !dropped {
+		return all
+	}
+	return out
 }
 
 func (r *run) oblige(kind, name string, guard, goal *smt.Term, text string) *Obligation {
@@ -143,7 +176,7 @@ func (r *run) oblige(kind, name string, guard, goal *smt.Term, text string) *Obl
 	if n := r.nameCount[full]; n > 1 {
 		full = fmt.Sprintf("%s~%d", full, n)
 	}
-	o := &Obligation{Name: full, Kind: kind, Props: r.props, Facts: r.facts[:len(r.facts):len(r.facts)],
+	o := &Obligation{Name: full, Kind: kind, Props: r.props, Facts: r.factsFor(),
 		Goal: r.C().Implies(guard, goal), Expect: "unsat", Func: r.name, Text: text, Vars: r.vars}
 	r.obls = append(r.obls, o)
 	return o
